@@ -29,8 +29,12 @@ class HErr2(Exception):
     pass
 
 
+class HBase(BaseException):
+    """a legal failure value (Event.fail accepts any BaseException) that is not an Exception"""
+
+
 EXC = {"ValueError": ValueError, "KeyError": KeyError, "RuntimeError": RuntimeError,
-       "HErr": HErr, "HErr2": HErr2, "ZeroDivisionError": ZeroDivisionError}
+       "HErr": HErr, "HErr2": HErr2, "ZeroDivisionError": ZeroDivisionError, "HBase": HBase}
 
 
 def mkexc(spec):
